@@ -24,6 +24,8 @@ func runC03(c *Ctx, r *Report) {
 	r.Doc("R-C03.2", "re-sort after every stack growth before the next pop")
 	r.Doc("R-C03.3", "visited gate: stack growth only for unseen entries, which are then marked; popped entries are emitted and marked")
 	r.Doc("R-C03.4", "the end hash stops the traversal")
+	r.Doc("R-C03.15", "a constructor that names the heads itself takes them from the snapshot its loader returned, the one the entries come from (heads worked out from a list the caller holds are not the heads of what was loaded: the view starts from the wrong entries and misses or misplaces the rest)")
+	explicitHeadsComeFromTheLoader(c, r, "R-C03.15")
 	r.Doc("R-C03.5", "values() walks from the receiver's heads over the receiver's Entries")
 	r.Doc("R-C03.7", "the predecessor index is extended in the same pass as the entry index (an entry's links are indexed iff the entry is inserted)")
 	r.Doc("R-C03.8", "head maps handed out as snapshots are never mutated in place (Merge is pure)")
